@@ -48,6 +48,10 @@ CHECKS = {
    "Exhaustive enumeration of all _and/_or query trees with 1-3 children and all two-level trees over a 7-leaf pool (graph vector, flat vector, two text, string, integer, _id) x 3 weight assignments on a fixed 8-point data set, both backends; result set, summed hybrid contributions and ranked-first/highest-first order are compared with a reference that evaluates the statement; on every 41st tree (thorough: every 5th) and every leaf, 11 select lists x 12 sort lists x 18 offset/limit pairs are checked (selected data exact, adjacent-pair sortedness with missing-last, page = contiguous slice of the full order).",
    "one data set; sort keys must be selected; ambiguous references (ties at a leaf limit) are skipped",
    "bounded-exhaustive enumeration of query trees / select / sort / paging inputs vs reference evaluation", "DESIGN.md §4 C06"),
+ "C08": (True, "seqx", "model_checking",
+   "Every write history up to depth 3 (thorough 4) over a 10-symbol alphabet on a nine-index schema, with and without a learned binary quantiser, executed in lock-step on five instances (bbolt with unlimited / 1-byte / disabled shared cache, bbolt reopened with a fresh cache manager after every batch, memstore); after every batch each instance must answer the complete battery exactly like the reference model (so warm, evicted, disabled, cold and in-memory answers coincide) and the reopened file's buckets must be byte-identical before close, after reopen and after querying.",
+   "approximate graph answers outside the exact regimes are not compared across instances; fsync/commit of bbolt trusted; rejected batches are not applied to memstore (as the property scopes it)",
+   "exhaustive enumeration of write histories in lock-step over five configurations of the real code (differential + reference model)", "DESIGN.md §4 C08"),
 }
 
 props = [json.loads(l) for l in open(os.path.join(HERE, "properties.jsonl"))]
